@@ -8,7 +8,7 @@ Mirrors (go-ipld-prime v0.24.0, the version pinned by /repo/go.mod):
   selector.Selector (compiled selectors), restricted to the combinators that
     /repo/selectorvalidator/selectorvalidator.go uses for `maxDepthSelector`
     (Matcher, ExploreAll, ExploreFields, ExploreRecursiveEdge, ExploreUnion,
-     ExploreRecursive)                               -> RSel, compile, interests, explore, matches
+     ExploreRecursive)                               -> RSel, compile, interests, explore, isMatch
   traversal.Progress.WalkMatching / walkAdv / explore over an in-memory node with the default
     (zero) configuration: no budget, no link system  -> walk
 
@@ -416,5 +416,17 @@ deriving Repr, DecidableEq, Inhabited
 def lookupAction (k : String) : List (String × Action) → Option Action
   | [] => none
   | (k', a) :: rest => if k' = k then some a else lookupAction k rest
+
+/-! ## Responder-side wiring vocabulary (filled in by the translator from preparequery.go) -/
+
+/-- a condition on the result of the incoming-request hooks -/
+inductive PQCond where
+  | hookError | notValidated | validated | paused
+deriving Repr, DecidableEq, Inhabited
+
+inductive PQAct where
+  | finishWithError (status : String)
+  | pause
+deriving Repr, DecidableEq, Inhabited
 
 end GS.Sel
